@@ -70,6 +70,8 @@ def build(t2incons, d, rng, names):
         vals = [rnd_value(rng) for _ in range(b["nv"])]
         por = rng.choice([0.1, 0.35, 1.0, 1.2345678901e-3]) if b["por"] else None
         perm = np.array([rnd_value(rng) ** 2 + 1e-20 for _ in range(3)]) if b["perm"] else None
+        if perm is not None and rng.random() < 0.3:
+            perm[rng.randrange(3)] = 0.0            # an impermeable direction: present, and exactly zero
         nseq, nadd = (rng.randint(0, 99999), rng.randint(0, 9999)) if b["seq"] else (None, None)
         inc[name] = t2incons.t2blockincon(vals, name, por, perm, nseq, nadd)
         truth.append({"name": name, "vals": vals, "por": por, "perm": None if perm is None else list(perm), "nseq": nseq, "nadd": nadd})
